@@ -713,6 +713,7 @@ class Remoter(tyming.Tymee):
             if ex.args[0] in (errno.EAGAIN, errno.EWOULDBLOCK):
                 return None  # keep trying
             elif ex.args[0] in (errno.ECONNRESET,
+                                errno.EPIPE,
                                 errno.ENETRESET,
                                 errno.ENETUNREACH,
                                 errno.EHOSTUNREACH,
@@ -819,7 +820,11 @@ class Remoter(tyming.Tymee):
         If partial send reattach and return
         """
         while self.txbs and not self.cutoff:
-            count = self.send(self.txbs)
+            try:
+                count = self.send(self.txbs)
+            except BrokenPipeError:  # far side gone, direct .send still raises
+                self.cutoff = True  # this signals need to close/reopen connection
+                break
             del self.txbs[:count]
             break  # try again later
 
@@ -947,6 +952,7 @@ class RemoterTls(Remoter):
             if  ex.args[0] in (ssl.SSL_ERROR_WANT_READ, ssl.SSL_ERROR_WANT_WRITE):
                 return None  # blocked waiting for data
             elif ex.args[0] in (errno.ECONNRESET,
+                                errno.EPIPE,
                                 errno.ENETRESET,
                                 errno.ENETUNREACH,
                                 errno.EHOSTUNREACH,
@@ -954,7 +960,7 @@ class RemoterTls(Remoter):
                                 errno.EHOSTDOWN,
                                 errno.ETIMEDOUT,
                                 errno.ECONNREFUSED,
-                                ssl.SSLEOFError):
+                                ssl.SSL_ERROR_EOF):
                 self.cutoff = True  # this signals need to close/reopen connection
                 return bytes()  # data empty
             else:
@@ -993,7 +999,7 @@ class RemoterTls(Remoter):
                                 errno.EHOSTDOWN,
                                 errno.ETIMEDOUT,
                                 errno.ECONNREFUSED,
-                                ssl.SSLEOFError):
+                                ssl.SSL_ERROR_EOF):
                 self.cutoff = True  # this signals need to close/reopen connection
                 result = 0
             else:
